@@ -372,6 +372,11 @@ def run(ctx):
                "the read-only shortcut goes through BaseTransaction::commit (which honours a syncing durability level)" if ok
                else "the optimistic read-only shortcut returns without BaseTransaction::commit: a syncing durability level is ignored")
 
+    # ---- cross-cutting disciplines (rules/discipline.py)
+    from .. import discipline as D
+    # a failed sync / flush is never reported as success
+    D.error_discipline(ctx, "R-C09.10", scope=lambda f: f.startswith(("db::Database::create_new", "db::Database::persist", "journal::", "<journal::", "file::", "batch::WriteBatch::commit", "tx::write_tx::BaseTransaction::commit", "tx::optimistic::write_tx::WriteTransaction::commit")))
+
     # ---- borrowed obligations (mechanisms owned by other properties that this property's verdict also rests on)
     # what was synced before a journal rotation survives only as long as the sealed journal is kept for every keyspace that needs it
     ctx.borrow("C10", ["R-C10.1"], "R-C09.9")
